@@ -30,6 +30,7 @@ var eCmps = []NamedCmp[E]{
 		return cmp.Compare(a.ID, b.ID)
 	}},
 	{"coarse-P/3", func(a, b E) int { return cmp.Compare(floorDiv(a.P, 3), floorDiv(b.P, 3)) }},
+	{"min-by-P-unnormalised", func(a, b E) int { return (a.P - b.P) * 173 }},
 }
 
 // HeapMon shadows a BinaryHeap or PriorityQueue with a multiset.
